@@ -280,3 +280,139 @@ class SeqTeal(_Link):
         ctx.oblige("post/head-linked-to-first-child", z3.If(n > 0, z3.Select(H, S[0].term) == START(0), z3.Select(H, S[0].term) == NONE_REF))
         ctx.oblige("post/children-linked-in-order", z3.ForAll([i], z3.Implies(z3.And(i >= 0, i < n - 1), z3.Select(H, END(i)) == START(i + 1))))
         ctx.oblige("post/frame", self.frame(ctx, lambda b: z3.Or(b == S[0].term, z3.Exists([i], z3.And(i >= 0, i < n - 1, b == END(i))))))
+
+
+CS, CE, PS, PE, BR = (z3.Function(n, I_, I_) for n in ("condStart", "condEnd", "predStart", "predEnd", "branchBlockOf"))
+
+
+class CondChild:
+    def __teal__(self, options):  # pragma: no cover
+        raise RuntimeError
+
+
+class PredChild:
+    def __teal__(self, options):  # pragma: no cover
+        raise RuntimeError
+
+
+class Arms:
+    def __init__(self, n):
+        self.n = n
+
+    def pyvc_iter(self, I):
+        return self.n, (lambda k: (SRef(z3.Int(fresh_name("cond")), CondChild), SRef(z3.Int(fresh_name("pred")), PredChild)))
+
+
+class CondTeal(_Link):
+    """Cond([c_0, p_0], ..., [c_{n-1}, p_{n-1}]), n >= 1:
+         c_0 .. -> B_0 -true-> p_0 .. -> E        B_i a fresh conditional block (root_expr = c_i), E a fresh empty block (the result's end)
+                   B_0 -false-> c_1 .. -> B_1 ... ;  B_{n-1} -false-> [err]       result (start of c_0, E);  nothing else written."""
+    target = "pyteal.ast.cond.Cond.__teal__"
+
+    def __init__(self):
+        super().__init__()
+        from pyteal.ast.cond import Cond
+        from pyteal.ir import TealConditionalBlock, Op
+        self.Cond, self.TCB, self.Op = Cond, TealConditionalBlock, Op
+        opt = REF(self.TealBlock, optional=True)
+        self.fields.update({(TealConditionalBlock, "trueBlock"): opt, (TealConditionalBlock, "falseBlock"): opt, (self.TealBlock, "trueBlock"): opt, (self.TealBlock, "falseBlock"): opt,
+                            (Cond, "args"): lambda ctx, ref: ctx.ghost["arms"]})
+        self.callees.update({
+            CondChild.__dict__["__teal__"]: lambda I, a, k: (SRef(CS(I.ctx.ghost["cur_index"]), self.TealBlock), SRef(CE(I.ctx.ghost["cur_index"]), self.TSB)),
+            PredChild.__dict__["__teal__"]: lambda I, a, k: (SRef(PS(I.ctx.ghost["cur_index"]), self.TealBlock), SRef(PE(I.ctx.ghost["cur_index"]), self.TSB)),
+            TealConditionalBlock: self.c_branch,
+            TealConditionalBlock.__dict__["setTrueBlock"]: lambda I, a, k: I.engine.heap_write(I.ctx, a[0], "trueBlock", opt, a[1]),
+            TealConditionalBlock.__dict__["setFalseBlock"]: lambda I, a, k: I.engine.heap_write(I.ctx, a[0], "falseBlock", opt, a[1]),
+            self.TealOp: lambda I, a, k: ("tealop", a[0], a[1]),
+        })
+        self.loops = {("Cond.__teal__", 0): LoopSpec(inv=self.inv, modifies=("heap:nextBlock", "heap:trueBlock", "heap:falseBlock"), havoc=self.havoc)}
+
+    def hp(self, ctx, name):
+        return ctx.ghost["I"].engine._heap(ctx, name, REF(self.TealBlock, optional=True))[name]
+
+    def c_branch(self, I, args, kwargs):
+        ctx = I.ctx
+        if args != [[]] or set(kwargs) != {"root_expr"}:
+            raise Unsupported("branch block is not TealConditionalBlock([], root_expr=cond)")
+        r = SRef(BR(ctx.ghost["cur_index"]), self.TCB)
+        ctx.ghost["branch_roots_ok"] = ctx.ghost.get("branch_roots_ok", True) and (kwargs["root_expr"] is ctx.ghost.get("cur_cond"))
+        return r
+
+    def setup(self, ctx, I):
+        n = z3.Int("n_arms")
+        ctx.assume(n >= 1)          # Cond.__init__ rejects an empty argument list
+        i, j = z3.Int("ci!"), z3.Int("cj!")
+        fs = (CS, CE, PS, PE, BR)
+        ctx.assume(z3.ForAll([i], z3.And(*[f(i) >= 0 for f in fs])))
+        # allocation: all these blocks are different objects
+        ctx.assume(z3.ForAll([i, j], z3.And(*[f(i) != g(j) for f in fs for g in fs if f is not g])))
+        ctx.assume(z3.ForAll([i, j], z3.Implies(i != j, z3.And(*[f(i) != f(j) for f in fs]))))
+        options = SRef(z3.Int("options"), object)
+        me = SRef(z3.Int("self"), self.Cond)
+        ctx.ghost.update(arms=Arms(n), n=n, options=options, self=me,
+                         H0={h: self.hp(ctx, h) for h in ("nextBlock", "trueBlock", "falseBlock")})
+        return {"args": [me, options]}
+
+    def c_new_block(self, I, args, kwargs):
+        ctx = I.ctx
+        r = ctx.fresh_ref(self.TSB, "blk")
+        ctx.assume(r.term >= 0)
+        j = z3.Int(fresh_name("ja"))
+        ctx.assume(z3.ForAll([j], z3.And(*[r.term != f(j) for f in (CS, CE, PS, PE, BR)])))
+        for b in ctx.ghost.setdefault("created", []):
+            ctx.assume(r.term != b[0].term)
+        ctx.ghost["created"].append((r, args[0] if args else None))
+        I.engine.heap_write(ctx, r, "nextBlock", REF(self.TealBlock, optional=True), None)
+        return r
+
+    def havoc(self, ctx, env, it):
+        ctx.ghost["cur_index"] = it.k
+        env.set("start", SRef(z3.Int(fresh_name("start")), self.TealBlock))
+        env.set("prevBranch", SRef(z3.Int(fresh_name("prevBranch")), self.TCB))
+
+    def links(self, ctx, k, E):
+        i = z3.Int("li!")
+        N, T, F_ = self.hp(ctx, "nextBlock"), self.hp(ctx, "trueBlock"), self.hp(ctx, "falseBlock")
+        return z3.And(z3.ForAll([i], z3.Implies(z3.And(i >= 0, i < k), z3.And(z3.Select(N, CE(i)) == BR(i), z3.Select(T, BR(i)) == PS(i), z3.Select(N, PE(i)) == E))),
+                      z3.ForAll([i], z3.Implies(z3.And(i >= 0, i < k - 1), z3.Select(F_, BR(i)) == CS(i + 1))))
+
+    def frames(self, ctx, k, extra=lambda b: z3.BoolVal(False)):
+        b, i = z3.Int("fb!"), z3.Int("fi!")
+        H0 = ctx.ghost["H0"]
+        E = ctx.ghost["created"][0][0].term
+        wn = lambda x: z3.Or(x == E, extra(x), z3.Exists([i], z3.And(i >= 0, i < k, z3.Or(x == CE(i), x == PE(i)))))
+        wt = lambda x: z3.Exists([i], z3.And(i >= 0, i < k, x == BR(i)))
+        return z3.And(z3.ForAll([b], z3.Implies(z3.Not(wn(b)), z3.Select(self.hp(ctx, "nextBlock"), b) == z3.Select(H0["nextBlock"], b))),
+                      z3.ForAll([b], z3.Implies(z3.Not(wt(b)), z3.Select(self.hp(ctx, "trueBlock"), b) == z3.Select(H0["trueBlock"], b))),
+                      z3.ForAll([b], z3.Implies(z3.Not(wt(b)), z3.Select(self.hp(ctx, "falseBlock"), b) == z3.Select(H0["falseBlock"], b))))
+
+    def inv(self, ctx, env, it):
+        g = ctx.ghost
+        g["cur_index"] = it.k
+        k = it.k
+        E = g["created"][0][0].term
+        out = [("links-so-far", self.links(ctx, k, E)), ("end-block-open", z3.Select(self.hp(ctx, "nextBlock"), E) == NONE_REF), ("frame", self.frames(ctx, k))]
+        if it.phase != "init":
+            out += [("start-is-first-condition", unwrap(env["start"]) == z3.If(k > 0, CS(0), NONE_REF)),
+                    ("previous-branch", unwrap(env["prevBranch"]) == z3.If(k > 0, BR(k - 1), NONE_REF))]
+        return out
+
+    def post(self, ctx, I, outcome, st):
+        if outcome[0] != "return":
+            ctx.oblige("never-raises", False)
+            return
+        g = ctx.ghost
+        n = g["n"]
+        s, e = outcome[1]
+        created = g["created"]
+        ok = len(created) == 2 and created[0][1] == [] and isinstance(created[1][1], list) and len(created[1][1]) == 1 and created[1][1][0][:1] == ("tealop",) \
+            and created[1][1][0][1] is g["self"] and created[1][1][0][2] is self.Op.err
+        ctx.oblige("post/end-block-empty-and-error-block-holds-err", z3.BoolVal(bool(ok)))
+        if not ok:
+            return
+        E, ERR = created[0][0].term, created[1][0].term
+        ctx.oblige("post/result", z3.And(unwrap(s) == CS(0), unwrap(e) == E))
+        ctx.oblige("post/arms-linked", self.links(ctx, n, E))
+        ctx.oblige("post/last-branch-falls-to-err", z3.Select(self.hp(ctx, "falseBlock"), BR(n - 1)) == ERR)
+        ctx.oblige("post/end-and-err-blocks-open", z3.And(z3.Select(self.hp(ctx, "nextBlock"), E) == NONE_REF, z3.Select(self.hp(ctx, "nextBlock"), ERR) == NONE_REF))
+        ctx.oblige("post/frame", self.frames(ctx, n, extra=lambda x: x == ERR))
